@@ -223,7 +223,7 @@ def gen_streams(rng, w, cfg, adversarial):
                 # an unsubscribed topic whose name merely STARTS WITH a subscribed name (SUB sockets filter by byte prefix)
                 stem = rng.choice(pub)
                 if not stem.startswith('_') and stem + '_x' not in pub:
-                    pub = pub + [stem + rng.choice(['_x', '2'])]
+                    pub = pub + [stem + rng.choice(['_x', '2', '/x', '/x'])]     # 'a/x' travels as "/a/x/", which the SUBSCRIBE prefix "/a/" lets through
             if rng.random() < 0.15 and pub:
                 pub = pub[:-1]
             rng.shuffle(pub)
